@@ -9,7 +9,8 @@
     [line_num] and [_last_was_cr] after the call, or the error site with its line; it ends at the first error. *)
 From Coq Require Import List NArith ZArith Bool.
 From SV Require Import Text.Str Text.Prog Text.ProgProofs Text.Tokenizer Text.TokenizerProofs Text.KvErrModel Text.KvErrProofs
-  Text.BaseTok Text.BaseTokProofs Text.BaseTokTokenizer Text.BaseTokHelpers Text.ErrFmt Text.ErrFmtProofs.
+  Text.BaseTok Text.BaseTokProofs Text.BaseTokTokenizer Text.BaseTokHelpers Text.ErrFmt Text.ErrFmtProofs
+  Text.HsTable Text.HsTableProofs Text.GtTable Text.GtTableProofs Text.GtExample Text.NextChar.
 Import ListNotations.
 
 (** Generic: NO reader program can tell a chunked source from the flat string it denotes — same result, and the
@@ -269,3 +270,95 @@ Theorem c03_error_text_raising_case_refuted :
   let c := {| f_none_none := Some [PMsg]; f_file_only := None; f_line_only := Some [PMsg; PLine]; f_both := Some [PMsg; PLine; PFile] |} in
   fmt_total c = false /\ format_fileinfo c [109]%N (Some [102]%N) None = None.
 Proof. vm_compute. split; reflexivity. Qed.
+
+(** Round 4: [_get_token] and [_handle_comment] AS WRITTEN in the source.  translate/c02_gettoken.py cuts the two functions into
+    eight segments (the outer loop, the four inner loops, the entry of [_handle_comment] and its two loops), executes each on
+    abstract values and emits a decision tree per segment; [gt_interp] gives any such object a meaning as a reader program.  If
+    the trees pass [trees_ok] (eight instance obligations, one per segment: the tree asks only what a segment of its kind may
+    depend on, and computes the model's function on every consistent abstract environment) and [hs] computes what the hand model
+    of [_handle_string] computes, the interpretation IS the hand model [get_token] on every input ... *)
+Theorem c03_get_token_trees_are_the_model : forall T o G hs, trees_ok G = true ->
+  (forall f acc lcr line l, run_flat (hs f acc lcr line) l = run_flat (handle_string T o f acc lcr line) l) ->
+  forall f line lcr l,
+  run_flat (gt_interp T o (steps_of G) hs f line lcr) l = run_flat (get_token T o f line lcr) l.
+Proof. exact gt_trees_interp_is_model. Qed.
+
+(** ... also over the chunked reader state of the real class ... *)
+Theorem c03_get_token_trees_are_the_model_chunked : forall T o G hs, trees_ok G = true ->
+  (forall f acc lcr line l, run_flat (hs f acc lcr line) l = run_flat (handle_string T o f acc lcr line) l) ->
+  forall f line lcr l s, R l s ->
+  fst (run_chk (gt_interp T o (steps_of G) hs f line lcr) s) = fst (run_flat (get_token T o f line lcr) l).
+Proof. exact gt_trees_interp_is_model_chunked. Qed.
+
+(** ... so the whole tokenizer as written ([_get_token] and [_handle_comment] from their trees [G], [_handle_string] from its
+    rows) yields, call after call, on the flat text and on ANY chunking of it, the trace of the hand model - to which the
+    totality, EOF-for-ever and linear-bound theorems above apply. *)
+Theorem c03_tokenizer_as_written_any_chunking : forall T o G rows, trees_ok G = true -> hs_rows_ok rows = true ->
+  forall n fuel cs,
+  itokens_chk (gt_interp T o (steps_of G) (hs_interp T o (tb_of rows)) fuel) n 1 false (chk_of_chunks cs)
+  = tokens_flat T o n fuel 1 false (concat cs)
+  /\ itokens_chk (gt_interp T o (steps_of G) (hs_interp T o (tb_of rows)) fuel) n 1 false (chk_of_str (concat cs))
+  = tokens_flat T o n fuel 1 false (concat cs)
+  /\ itokens_flat (gt_interp T o (steps_of G) (hs_interp T o (tb_of rows)) fuel) n 1 false (concat cs)
+  = tokens_flat T o n fuel 1 false (concat cs).
+Proof.
+  intros T o G rows HG Hr n fuel cs.
+  pose proof (hs_rows_interp_is_model T o rows Hr) as Hhs.
+  repeat split.
+  - exact (gt_trees_trace_is_model_chunked T o G _ HG Hhs n fuel 1%N false (concat cs) _ (R_of_chunks cs)).
+  - exact (gt_trees_trace_is_model_chunked T o G _ HG Hhs n fuel 1%N false (concat cs) _ (R_of_str (concat cs))).
+  - exact (gt_trees_trace_is_model T o G _ HG Hhs n fuel 1%N false (concat cs)).
+Qed.
+
+Theorem c03_tokenizer_as_written_total : forall T o G rows, trees_ok G = true -> hs_rows_ok rows = true -> ops_no_eof T = true ->
+  forall n fuel cs, (length (concat cs) < fuel)%nat ->
+  Forall (fun r => r <> RFuel)
+         (itokens_chk (gt_interp T o (steps_of G) (hs_interp T o (tb_of rows)) fuel) n 1 false (chk_of_chunks cs)).
+Proof.
+  intros T o G rows HG Hr Hops n fuel cs Hf.
+  destruct (c03_tokenizer_as_written_any_chunking T o G rows HG Hr n fuel cs) as [-> _].
+  exact (tokens_total T o Hops n fuel 1%N false (concat cs) Hf).
+Qed.
+
+(** The condition is satisfiable (a fixed copy of the trees of the pinned source passes it; the check proves it for the trees
+    it regenerates from today's source) and it matters: a dispatch tree that no longer looks at [_last_was_cr] is rejected, and
+    its interpretation turns CR LF into two NEWLINE tokens. *)
+Theorem c03_get_token_trees_satisfiable : trees_ok ex_trees = true.
+Proof. vm_compute. reflexivity. Qed.
+Theorem c03_get_token_trees_refuted :
+  trees_ok bad_trees = false
+  /\ itokens_flat (gt_interp ex_tables ex_opts (steps_of bad_trees) (handle_string ex_tables ex_opts) 5) 3 1 false [CR; LF]
+     = [RTok NEWLINE [LF] 2 true; RTok NEWLINE [LF] 3 false; RTok EOF [] 3 false]
+  /\ tokens_flat ex_tables ex_opts 3 5 1 false [CR; LF] = [RTok NEWLINE [LF] 2 true; RTok EOF [] 2 false; RTok EOF [] 2 false].
+Proof. vm_compute. repeat split; reflexivity. Qed.
+
+(** Round 4: [_next_char] AS WRITTEN, and chunk sources that are not texts.  translate/c03_nextchar.py reads the fast path and
+    executes the refill part on abstract values for every thing the chunk iterator can do next (yield bytes / another non-str
+    object / the empty string / a non-empty string, be exhausted, raise UnicodeDecodeError / another exception).  If the rows are
+    the model's ([nc_rows_ok], instance obligation [next_char_rows_are_the_model]), then on a source of [str] chunks the function
+    IS the reader [cnext] that every theorem above is about ... *)
+Theorem c03_next_char_is_cnext : forall fast rows, nc_rows_ok fast rows = true -> forall s,
+  xnext (nc_tb rows) (xof s) = (XChar (fst (cnext s)), xof (snd (cnext s))).
+Proof. exact xnext_is_cnext. Qed.
+
+(** ... and the first thing that is not a [str] (after any number of empty chunks, when the current chunk is used up) is answered
+    precisely: ValueError for a bytes / non-str object (such a source is not a text: outside the property; nothing is silently
+    dropped), the tokenizer's own error (TokenSyntaxError / KeyValError, 'Could not decode file!') for UnicodeDecodeError - a file in
+    the wrong encoding is covered by "TokenSyntaxError and nothing else" -, any other exception of the iterator propagates. *)
+Theorem c03_next_char_first_non_text : forall fast rows, nc_rows_ok fast rows = true -> forall s n it r,
+  at_end s -> xmore s = repeat (IStr []) n ++ it :: r ->
+  fst (xnext (nc_tb rows) s) =
+  match it with
+  | IBytes | INonStr => XValueError
+  | IDecodeErr => XDecodeError
+  | IOtherErr => XPropagates
+  | IStr [] => fst (xnext (nc_tb rows) {| xcur := xcur s; xidx := xidx s; xmore := r |})
+  | IStr (c :: _) => XChar (Some c)
+  end.
+Proof. exact xnext_first_bad. Qed.
+
+Theorem c03_next_char_rows_refuted :
+  nc_rows_ok 1 nc_rows_of_spec = true /\ nc_rows_ok 1 nc_rows_bad = false
+  /\ fst (xnext (nc_tb nc_rows_bad) {| xcur := []; xidx := -1; xmore := [INonStr; IStr [65%N]] |}) = XChar (Some 65%N)
+  /\ fst (xnext (nc_tb nc_rows_bad) {| xcur := []; xidx := -1; xmore := [IDecodeErr] |}) = XPropagates.
+Proof. vm_compute. repeat split; reflexivity. Qed.
